@@ -11,6 +11,7 @@ import (
 	"github.com/DistCompiler/pgo/systems/locksvc"
 
 	"verif/env"
+	"verif/tlc"
 )
 
 // LockSvc: locksvc.tla. Globals: network (function NodeSet -> bag), hasLock.
@@ -100,4 +101,68 @@ func (s *LockSvc) Settle(committed bool) {
 		}
 	}
 	s.pendingPop, s.pendingPush = nil, nil
+}
+
+// pcOf renders an actor's program counter as the spec's pc value.
+func pcOf(a *env.Actor) string {
+	if a.Done() {
+		return `"Done"`
+	}
+	pc := a.PC
+	for i := 0; i < len(pc); i++ {
+		if pc[i] == '.' {
+			pc = pc[i+1:]
+			break
+		}
+	}
+	return fmt.Sprintf("%q", pc)
+}
+
+// fnOver renders [self \in ids |-> f(self)] as an explicit function.
+func fnOver(ids []string, vals []string) string {
+	if len(ids) == 0 {
+		return "<<>>"
+	}
+	s := "("
+	for i := range ids {
+		if i > 0 {
+			s += " @@ "
+		}
+		s += "(" + ids[i] + " :> " + vals[i] + ")"
+	}
+	return s + ")"
+}
+
+func local(a *env.Actor, name string) string {
+	v, ok := a.Local(name)
+	if !ok {
+		return "defaultInitValue"
+	}
+	return tlc.Render(v)
+}
+
+// TLCSystem describes locksvc.tla for the step oracle.
+func (s *LockSvc) TLCSystem(repo string) tlc.System {
+	return tlc.System{
+		Name: "locksvc", SpecPath: repo + "/systems/locksvc/locksvc.tla",
+		Vars:   []string{"pc", "network", "hasLock", "msg", "q"},
+		Consts: map[string]string{"NumClients": fmt.Sprint(s.NumClients), "defaultInitValue": "defaultInitValue"},
+	}
+}
+
+// State is the full spec state (PlusCal translation variables) at a step boundary.
+func (s *LockSvc) State() tlc.State {
+	ids := []string{"0"}
+	pcs := []string{pcOf(s.Server)}
+	for _, c := range s.Clients {
+		ids = append(ids, tlc.Render(c.Self))
+		pcs = append(pcs, pcOf(c))
+	}
+	return tlc.State{
+		"pc":      fnOver(ids, pcs),
+		"network": tlc.Render(s.WD.Vars["network"]),
+		"hasLock": tlc.Render(s.WD.Vars["hasLock"]),
+		"msg":     fnOver([]string{"0"}, []string{local(s.Server, "AServer.msg")}),
+		"q":       fnOver([]string{"0"}, []string{local(s.Server, "AServer.q")}),
+	}
 }
